@@ -228,7 +228,54 @@ func ruleCacheRecursion(c *Ctx) {
 			if tid == nil || !(namedOf(info.TypeOf(tid)) != nil && namedOf(info.TypeOf(tid)).Obj().Name() == "ValidatorIndex") {
 				c.bad(key, trustedV.Pos(), "trustedParentCount is %s, want the conflicting validator index", types.ExprString(trustedV))
 			} else {
-				c.ok(key, call.Pos(), "child{parent: receiver, trustedParentCount: %s}", tid.Name)
+				// progress: the child must no longer see the parent's entry that caused the conflict, i.e. its trusted
+				// prefix ends AT that entry. Which entry that is follows from the governing test:
+				//   existing != index            -> the key is already recorded at `existing`: cut there
+				//   existingPubkey.Compressed != pub -> another key sits at `index`: cut at index
+				var gov *ast.IfStmt
+				for cur := ast.Node(lit); cur != nil; cur = parents[cur] {
+					if is, ok := cur.(*ast.IfStmt); ok && gov == nil && is.Body.Pos() <= lit.Pos() && lit.End() <= is.Body.End() {
+						gov = is
+					}
+				}
+				want := ""
+				if gov != nil {
+					if be, ok := ast.Unparen(gov.Cond).(*ast.BinaryExpr); ok && be.Op == token.NEQ {
+						xi, _ := ast.Unparen(be.X).(*ast.Ident)
+						yi, _ := ast.Unparen(be.Y).(*ast.Ident)
+						isIdx := func(id *ast.Ident) bool {
+							return id != nil && namedOf(info.TypeOf(id)) != nil && namedOf(info.TypeOf(id)).Obj().Name() == "ValidatorIndex"
+						}
+						switch {
+						case isIdx(xi) && isIdx(yi):
+							// the one that is not the parameter is the recorded index of the key
+							if paramIndex(fd, info, info.Uses[xi]) >= 0 {
+								want = yi.Name
+							} else {
+								want = xi.Name
+							}
+						default:
+							// a pubkey comparison: the conflict is at the index being appended (the ValidatorIndex parameter)
+							if fd.Type.Params != nil {
+								for _, f := range fd.Type.Params.List {
+									for _, nm := range f.Names {
+										if isIdx(nm) {
+											want = nm.Name
+										}
+									}
+								}
+							}
+						}
+					}
+				}
+				switch {
+				case want == "":
+					c.unm(key, call.Pos(), "governing conflict test of this fork-out not recognised")
+				case tid.Name != want:
+					c.bad(key, trustedV.Pos(), "this fork-out is taken when `%s`; the parent's conflicting entry sits at %s, but the child trusts the parent up to %s: when %s > %s the child still sees the conflicting entry, detects the same conflict and forks again without end", types.ExprString(gov.Cond), want, tid.Name, tid.Name, want)
+				default:
+					c.ok(key, call.Pos(), "child{parent: receiver, trustedParentCount: %s} cuts at the conflicting entry", tid.Name)
+				}
 			}
 		}
 		return true
